@@ -3,7 +3,8 @@
 // Oracle for C12/C04 on RegionsFromGFF (from the property statements): the list of coding regions is a deterministic
 // function of the annotation (features with the same start keep their file order; no dependence on map iteration), and
 // every reference position is either inside a returned (named) region or in the 'intergenic' list, so that no
-// nucleotide difference can be dropped.
+// nucleotide difference can be dropped; C04/C14: rows sharing an ID are one feature, its positions the rows concatenated
+// in file order.
 package variants
 
 import (
@@ -24,6 +25,7 @@ type verifRGFeat struct {
 }
 type verifRGIn struct {
 	Feats []verifRGFeat `json:"feats"`
+	Runs  int           `json:"runs"`
 }
 
 const verifRGRef = "ATGGCTAAACGTATGGCTAAACGTATGGCTAAACGT" // 36
@@ -45,7 +47,11 @@ func verifRGBuild(in verifRGIn) gff.GFF {
 
 func verifRGCheck(in verifRGIn) (bool, string) {
 	first := ""
-	for run := 0; run < 15; run++ {
+	runs := in.Runs
+	if runs == 0 {
+		runs = 15
+	}
+	for run := 0; run < runs; run++ {
 		cds, inter, err := RegionsFromGFF(verifRGBuild(in), verifRGRef)
 		if err != nil {
 			return true, ""
@@ -93,6 +99,62 @@ func verifRGCheck(in verifRGIn) (bool, string) {
 					}
 				}
 			}
+			// grouping (C04/C14): the rows that share an ID form ONE region whose positions are the rows' coordinates
+			// concatenated in the order the rows are listed in the file (adjacent or not, ascending or not)
+			idRows := map[string][]verifRGFeat{}
+			var idOrder []string
+			for _, f := range in.Feats {
+				if _, ok := idRows[f.ID]; !ok {
+					idOrder = append(idOrder, f.ID)
+				}
+				idRows[f.ID] = append(idRows[f.ID], f)
+			}
+			multi := false
+			for _, id := range idOrder {
+				rows := idRows[id]
+				if len(rows) > 1 {
+					multi = true
+				}
+				if rows[0].Name == "" {
+					continue
+				}
+				sameName := 0
+				for _, id2 := range idOrder {
+					if idRows[id2][0].Name == rows[0].Name {
+						sameName++
+					}
+				}
+				if sameName > 1 {
+					continue // two features with one name: regions cannot be told apart by name here
+				}
+				var wantPos []int
+				lo := rows[0].Start
+				for _, rw := range rows {
+					for p := rw.Start; p <= rw.End; p++ {
+						wantPos = append(wantPos, p)
+					}
+					if rw.Start < lo {
+						lo = rw.Start
+					}
+				}
+				n := 0
+				for _, r := range cds {
+					if r.Name == rows[0].Name {
+						n++
+						if fmt.Sprint(r.Positions) != fmt.Sprint(wantPos) {
+							return false, fmt.Sprintf("feature %s (rows sharing ID %s, in file order): positions are %v, the rows concatenated in file order give %v", rows[0].Name, id, r.Positions, wantPos)
+						}
+					}
+				}
+				if n != 1 {
+					return false, fmt.Sprintf("feature %s (ID %s, %d rows) comes out as %d regions; rows sharing an ID are one feature", rows[0].Name, id, len(rows), n)
+				}
+			}
+			if multi {
+				// with multi-row features the start of a feature is the smallest row start; the order check below is
+				// written for single-row features only
+				continue
+			}
 			if sig != strings.Join(want, ",") {
 				return false, fmt.Sprintf("regions come out as [%s]; by start position, ties in file order, they are [%s]", sig, strings.Join(want, ","))
 			}
@@ -130,7 +192,7 @@ func TestVerifOracle(t *testing.T) {
 							in := verifRGIn{[]verifRGFeat{
 								{"id1", names[na], spans[a][0], spans[a][1]},
 								{"id2", names[nb], spans[b][0], spans[b][1]},
-								{"id3", names[nc], spans[c][0], spans[c][1]}}}
+								{"id3", names[nc], spans[c][0], spans[c][1]}}, 15}
 							if names[nc] != "" {
 								in.Feats[2].Name = names[nc] + "c"
 							}
@@ -145,5 +207,51 @@ func TestVerifOracle(t *testing.T) {
 			}
 		}
 	}
-	fmt.Printf("GFV-DONE %d (three CDS features with IDs, each named or unnamed, on 5 spans of a 36-base reference; 15 runs each)\n", n)
+	// rows sharing IDs: every assignment of 3..4 rows to the IDs {x, y}, rows on 6 non-overlapping spans in every order
+	// (so: adjacent and interleaved rows, ascending and non-ascending)
+	rowSpans := [][2]int{{1, 6}, {7, 12}, {13, 18}, {19, 24}, {25, 30}, {31, 36}}
+	for nrows := 3; nrows <= 4; nrows++ {
+		for assign := 0; assign < 1<<nrows; assign++ {
+			var perm func(used []int)
+			stop := false
+			perm = func(used []int) {
+				if stop {
+					return
+				}
+				if len(used) == nrows {
+					var feats []verifRGFeat
+					for k, sp := range used {
+						id, name := "x", "geneX"
+						if assign>>k&1 == 1 {
+							id, name = "y", "geneY"
+						}
+						feats = append(feats, verifRGFeat{id, name, rowSpans[sp][0], rowSpans[sp][1]})
+					}
+					in := verifRGIn{feats, 3}
+					n++
+					if ok, d := verifRGCheck(in); !ok {
+						report(in, d)
+						stop = true
+					}
+					return
+				}
+				for sp := 0; sp < len(rowSpans); sp++ {
+					dup := false
+					for _, u := range used {
+						if u == sp {
+							dup = true
+						}
+					}
+					if !dup {
+						perm(append(append([]int{}, used...), sp))
+					}
+				}
+			}
+			perm(nil)
+			if stop {
+				return
+			}
+		}
+	}
+	fmt.Printf("GFV-DONE %d (three single-row CDS features, named or unnamed, on 5 spans of a 36-base reference; plus 3..4 rows on 6 disjoint spans in every order under every assignment to two IDs - adjacent/interleaved, ascending/non-ascending; 15 resp. 3 runs each)\n", n)
 }
